@@ -25,8 +25,9 @@ type rawVal struct {
 // modelValues runs the satisfiable query again with model production and
 // returns the raw values of all input probes by path.
 func modelValues(dir string, vc *FuncVC, o *Obligation, solverName string, timeoutS int) (map[string]rawVal, string) {
-	probes := vc.inputProbes()
 	sc := vc.Engine.sc
+	before := len(sc.lines)
+	probes := vc.inputProbes()
 	var b strings.Builder
 	b.WriteString("(set-option :produce-models true)\n(set-logic ALL)\n")
 	b.WriteString(sc.text(o.Upto))
@@ -35,17 +36,36 @@ func modelValues(dir string, vc *FuncVC, o *Obligation, solverName string, timeo
 	} else {
 		b.WriteString("(assert (not " + o.Goal + "))\n")
 	}
-	for _, l := range sc.lines[o.Upto:] {
-		if strings.HasPrefix(l, "(define-fun ld!") || strings.HasPrefix(l, "(define-fun ix!") || strings.HasPrefix(l, "(define-fun lda!") || strings.HasPrefix(l, "(declare-const H0_") {
+	for _, l := range sc.lines[o.Upto:before] {
+		if strings.HasPrefix(l, "(declare-const H0_") || strings.HasPrefix(l, "(declare-fun parse") {
 			b.WriteString(l + "\n")
 		}
 	}
+	for _, l := range sc.lines[before:] {
+		if !strings.HasPrefix(l, "(assert") {
+			b.WriteString(l + "\n")
+		}
+	}
+	// prefer small inputs: slices of at most 4 elements (dropped if that is infeasible)
+	small := ""
+	for _, p := range probes {
+		if strings.HasSuffix(p.Path, "#len") && p.Kind == "int" && !strings.Contains(p.Term, "gs_len") {
+			small += "(assert (bvsle " + p.Term + " (_ bv3 64)))\n"
+		}
+	}
+	b.WriteString("SMALL-INPUTS\n")
 	b.WriteString("(check-sat)\n")
+	// string-valued probes are decoded by comparing their abstract model value with
+	// the abstract values of the program's literals
+	for i, lit := range vc.Engine.litOrder {
+		probes = append(probes, probe{fmt.Sprintf("lit#%d", i), vc.Engine.lits[lit], SStr, "lit", 0})
+	}
 	for _, p := range probes {
 		b.WriteString("(get-value (" + p.Term + "))\n")
 	}
 	file := filepath.Join(dir, sanitize(o.Name)+".model.smt2")
-	_ = os.WriteFile(file, []byte(b.String()), 0o644)
+	full := b.String()
+	_ = os.WriteFile(file, []byte(strings.Replace(full, "SMALL-INPUTS\n", small, 1)), 0o644)
 	order := []solverSpec{}
 	for _, s := range solvers {
 		if s.name == solverName {
@@ -67,13 +87,34 @@ func modelValues(dir string, vc *FuncVC, o *Obligation, solverName string, timeo
 	}
 	res := map[string]rawVal{}
 	if st != "sat" {
+		// retry without the small-input preference
+		_ = os.WriteFile(file, []byte(strings.Replace(full, "SMALL-INPUTS\n", "", 1)), 0o644)
+		for _, sp := range order {
+			st, out, _ = runSolverCtx(sp, file, timeoutS)
+			if st == "sat" {
+				break
+			}
+		}
+	}
+	if st != "sat" {
 		return res, out
 	}
 	lines := strings.Split(out, "\n")
 	answers := splitSexprs(strings.Join(lines[1:], " "))
-	lits := map[uint64]string{}
-	for i, lit := range vc.Engine.litOrder {
-		lits[uint64(i+1)] = lit
+	abs := map[string]string{} // abstract value -> literal
+	strv := map[string]string{}
+	for i, p := range probes {
+		if i >= len(answers) {
+			break
+		}
+		if p.Kind == "lit" {
+			var k int
+			fmt.Sscanf(p.Path, "lit#%d", &k)
+			abs[valueOf(answers[i])] = vc.Engine.litOrder[k]
+		}
+		if p.Kind == "str" {
+			strv[p.Path] = valueOf(answers[i])
+		}
 	}
 	for i, p := range probes {
 		if i >= len(answers) {
@@ -82,6 +123,8 @@ func modelValues(dir string, vc *FuncVC, o *Obligation, solverName string, timeo
 		v := valueOf(answers[i])
 		rv := rawVal{}
 		switch p.Kind {
+		case "lit":
+			continue
 		case "bool":
 			rv.Bool = v == "true"
 			rv.OK = v == "true" || v == "false"
@@ -98,12 +141,10 @@ func modelValues(dir string, vc *FuncVC, o *Obligation, solverName string, timeo
 	for _, p := range probes {
 		if p.Kind == "str" {
 			rv := res[p.Path]
-			if id, ok := res[p.Path+"#id"]; ok && id.OK {
-				if lit, isLit := lits[id.U]; isLit {
-					rv.Lit, rv.IsLit = lit, true
-				} else {
-					rv.U = id.U
-				}
+			if lit, isLit := abs[strv[p.Path]]; isLit {
+				rv.Lit, rv.IsLit = lit, true
+			} else {
+				rv.U = uint64(hashStr(strv[p.Path]) % 1000)
 			}
 			res[p.Path] = rv
 		}
@@ -140,6 +181,19 @@ func goLiteral(m map[string]rawVal, path string, t types.Type, pkg *types.Packag
 			}
 			if rv.IsLit {
 				return ts + "(" + strconv.Quote(rv.Lit) + ")", true
+			}
+			// a string that the program parses as a number: use the number's text
+			for k := 0; k < 8; k++ {
+				if ok, has := m[fmt.Sprintf("%s#pok%d", path, k)]; has && ok.Bool {
+					v := int64(m[fmt.Sprintf("%s#pval%d", path, k)].U)
+					base := int64(m[fmt.Sprintf("%s#pbase%d", path, k)].U)
+					txt := strconv.FormatInt(v, 10)
+					if base == 16 {
+						txt = strconv.FormatInt(v, 16)
+					}
+					*notes = append(*notes, fmt.Sprintf("%s: string reconstructed from the value it parses to (%s)", path, txt))
+					return ts + "(" + strconv.Quote(txt) + ")", true
+				}
 			}
 			n := int64(m[path+"#len"].U)
 			if n < 0 || n > 64 {
